@@ -606,3 +606,19 @@ mod tests {
         assert_eq!(svr, deserialized_svr);
     }
 }
+
+/// Verification hook: a regressor built from its parts (so that the prediction formula can be evaluated on an arbitrary model).
+#[cfg(feature = "verif")]
+pub fn verif_svr_from_parts<T: RealNumber, M: Matrix<T>, K: Kernel<T, M::RowVector>>(
+    kernel: K,
+    instances: Vec<M::RowVector>,
+    w: Vec<T>,
+    b: T,
+) -> SVR<T, M, K> {
+    SVR {
+        kernel,
+        instances,
+        w,
+        b,
+    }
+}
